@@ -108,6 +108,9 @@ def canon(v):
         return {'s': v}
     if isinstance(v, (list, tuple)):
         return {'l': [canon(x) for x in v]}
+    if isinstance(v, dict):
+        # a struct value is observed as the tuple of its members in the order of the (sorted) member names - see lean_dt
+        return {'l': [canon(v[k]) for k in sorted(v)]}
     return {'x': type(v).__name__}
 
 
@@ -138,7 +141,25 @@ def build_dt(c):
         return ArrayOf(build_dt(c['members']), c['minlen'], c['maxlen'])
     if t == 'tuple':
         return TupleOf(*[build_dt(m) for m in c['members']])
+    if t == 'struct':
+        from frappy.datatypes import StructOf
+        return StructOf(**{n: build_dt(m) for n, m in zip(c['names'], c['members'])})
     raise ValueError(t)
+
+
+def lean_dt(c):
+    """the datatype as sent to Lean: StructOf(a=…, b=…) is observed as the tuple of its members in the order of the sorted
+    names (values: `canon`; datainfo: `datainfo_to_cdt`) - conversion, limits, units and the recursion of set_main_unit
+    are member-wise in both; a missing or extra key is a tuple of the wrong length"""
+    if c is None:
+        return None
+    if c['t'] == 'struct':
+        return {'t': 'tuple', 'members': [lean_dt(m) for m in c['members']]}
+    if c['t'] == 'tuple':
+        return {'t': 'tuple', 'members': [lean_dt(m) for m in c['members']]}
+    if c['t'] == 'array':
+        return dict(c, members=lean_dt(c['members']))
+    return c
 
 
 def datainfo_to_cdt(d):
@@ -165,6 +186,9 @@ def datainfo_to_cdt(d):
         return None if m is None else {'t': 'array', 'minlen': d.get('minlen', 0), 'maxlen': d['maxlen'], 'members': m}
     if t == 'tuple':
         ms = [datainfo_to_cdt(m) for m in d['members']]
+        return None if None in ms else {'t': 'tuple', 'members': ms}
+    if t == 'struct' and not d.get('optional'):
+        ms = [datainfo_to_cdt(d['members'][k]) for k in sorted(d['members'])]
         return None if None in ms else {'t': 'tuple', 'members': ms}
     return None
 
@@ -196,7 +220,10 @@ def gen_tuple(rng):
 def gen_dt(rng, allow_array=True):
     r = rng.random()
     if allow_array and r < 0.08:
-        return gen_tuple(rng)
+        c = gen_tuple(rng)
+        if rng.random() < 0.4:                     # StructOf: control parameters (p, i, d, tau)
+            c = {'t': 'struct', 'names': sorted(rng.sample(['d', 'i', 'p', 'tau'], len(c['members']))), 'members': c['members']}
+        return c
     if r < 0.35:
         lo = rng.choice([-40, -8, 0, 0, 4, 10])
         hi = lo + rng.choice([0, 4, 16, 40, 400])
@@ -262,6 +289,8 @@ def valid_value(rng, c, where='any'):
         return [valid_value(rng, c['members'], where) for _ in range(n)]
     if t == 'tuple':
         return [valid_value(rng, m, where) for m in c['members']]
+    if t == 'struct':
+        return {n: valid_value(rng, m, where) for n, m in zip(c['names'], c['members'])}
     raise ValueError(t)
 
 
@@ -289,6 +318,9 @@ def bad_value(rng, c):
     if t == 'tuple':
         ok = [valid_value(rng, m, 'inside') for m in c['members']]
         return rng.choice([5, None, ok[:-1], ok + [1], ['x'] * len(ok)])
+    if t == 'struct':
+        ok = {n: valid_value(rng, m, 'inside') for n, m in zip(c['names'], c['members'])}
+        return rng.choice([5, None, {n: ok[n] for n in c['names'][1:]}, dict(ok, zz=1), {n: 'x' for n in ok}])
     raise ValueError(t)
 
 
@@ -402,6 +434,13 @@ def pyval(cv):
     raise ValueError(cv)
 
 
+def pyval_dt(c, cv):
+    """class-level default / value of a parameter with datatype c"""
+    if c is not None and c['t'] == 'struct' and isinstance(cv, dict) and 'l' in cv:
+        return {n: pyval(x) for n, x in zip(c['names'], cv['l'])}
+    return pyval(cv)
+
+
 def build_class(spec):
     from frappy.modules import Module
     from frappy.params import Parameter, Command, Limit
@@ -419,18 +458,18 @@ def build_class(spec):
         elif not o['impl']:
             p = o['decl']
             basens[p['name']] = Parameter(f'param {p["name"]}', build_dt(p['dt']), readonly=p['readonly'],
-                                          default=pyval(p['default']['v']), optional=True)
+                                          default=pyval_dt(p['dt'], p['default']['v']), optional=True)
     for p in spec['params']:
         name = p['name']
         if p.get('opt'):
-            kw = {'readonly': p['readonly'], 'needscfg': p['needscfg'], 'default': pyval(p['default']['v'])}
+            kw = {'readonly': p['readonly'], 'needscfg': p['needscfg'], 'default': pyval_dt(p['dt'], p['default']['v'])}
             basens[name] = Parameter(f'param {name}', build_dt(p['dt']), optional=True, **kw)
             ns[name] = Parameter()          # implemented here: properties are inherited
         elif p.get('inherit'):
             # declared in a base class (datatype, default); this class only says that the value MUST be configured
             kw = {'readonly': p['readonly']}
             if p['default'] is not None:
-                kw['default'] = pyval(p['default']['v'])
+                kw['default'] = pyval_dt(p['dt'], p['default']['v'])
             if p['export'] is not True:
                 kw['export'] = p['export']
             basens[name] = Parameter(f'param {name}', build_dt(p['dt']), **kw)
@@ -443,9 +482,9 @@ def build_class(spec):
         else:
             kw = {'readonly': p['readonly'], 'needscfg': p['needscfg']}
             if p['default'] is not None:
-                kw['default'] = pyval(p['default']['v'])
+                kw['default'] = pyval_dt(p['dt'], p['default']['v'])
             if p['value'] is not None:
-                kw['value'] = pyval(p['value']['v'])
+                kw['value'] = pyval_dt(p['dt'], p['value']['v'])
             if p['export'] is not True:
                 kw['export'] = p['export']
             ns[name] = Parameter(f'param {name}', build_dt(p['dt']), **kw)
@@ -589,7 +628,7 @@ def class_desc(spec, cls):
             p = byname[aname]
             own = [['readonly', bool(aobj.readonly)], ['visibility', {'n': 4 * int(aobj.visibility)}],
                    ['export', canon(aobj.export)]]
-            params.append({'name': aname, 'dt': p['dt'], 'limit': p['limit'], 'base': p['base'],
+            params.append({'name': aname, 'dt': lean_dt(p['dt']), 'limit': p['limit'], 'base': p['base'],
                            'value': wrap(aobj.value, aobj.value is not None),          # as stored on the class (converted)
                            'default': wrap(aobj.default, aobj.default is not None), 'needscfg': bool(aobj.needscfg),
                            'write': ('write_' + aname) in cls.wrappedAttributes, 'own': own,
@@ -755,7 +794,7 @@ def inject(rng, spec, cfg, kind):
     if kind == 'unknown_param_prop':
         foreign = {'double': ['maxchars', 'minlen', 'nosuch'], 'int': ['unit', 'maxchars', 'nosuch'],
                    'string': ['min', 'unit', 'nosuch'], 'bool': ['min', 'nosuch'], 'enum': ['max', 'nosuch'],
-                   'tuple': ['unit', 'min', 'maxlen', 'nosuch'],
+                   'tuple': ['unit', 'min', 'maxlen', 'nosuch'], 'struct': ['unit', 'max', 'nosuch'],
                    'array': ['maxchars', 'nosuch'] + (['unit'] if c['t'] == 'array' and c['members']['t'] in ('int', 'tuple') else [])}[c['t']]
         items.insert(rng.randint(0, len(items)), (rng.choice(foreign), rng.choice([1, 'x'])))
     elif kind == 'bad_param_prop':
@@ -2163,6 +2202,20 @@ def run(ctx):
                                         'param' if a['param']['value'] is not None else 'param-novalue'))
             if mo['gen'] == 2:
                 res.count('module.second-start')
+            res.count('module.main-unit=' + ('none' if judge.get('mainunit') is None else 'from-cfg' if any(
+                e[0] == 'value' and any(k == 'unit' for k, _ in e[1].get('acc', [])) for e in mo['before']) else 'from-class'))
+            for p in mo['spec']['params']:
+                dtp = p['dt'] or p.get('gdt') or next((q['dt'] for q in mo['spec']['params'] if q['name'] == p['base']), None)
+                if p['limit']:
+                    res.count('param.dt=limit-' + p['limit'])
+                elif dtp:
+                    res.count('param.dt=' + dtp['t'] + ('-of-' + dtp['members']['t'] if dtp['t'] == 'array' else ''))
+                if dtp and '$' in json.dumps(dtp):
+                    res.count('param.unit-refers-to-main-unit.' + ('structured' if dtp['t'] in ('tuple', 'struct', 'array') or p['limit'] == 'limits' else 'scalar')
+                              + ('' if judge.get('mainunit') else '.no-main-unit'))
+                if p['needscfg']:
+                    res.count('param.needscfg.' + ('with-default' if p['default'] is not None else 'no-default')
+                              + ('.inherited' if p.get('inherit') else ''))
             if any(p.get('optional') for p in mo['cls']['params']):
                 res.count('class.has-unimplemented-optional')
             for gr in mo['spec'].get('groups', []):
